@@ -7,21 +7,23 @@ def f32(u): return struct.unpack('<f', struct.pack('<I', u))[0]
 def f64(u): return struct.unpack('<d', struct.pack('<Q', u))[0]
 ROW = re.compile(r'^([EAL]) (.*?) (\d+)(?: ([-\d.e+infa]+))? =(.*)$')
 def parse(p):
-    out = []
-    for l in open(p):
-        m = ROW.match(l.rstrip('\n'))
-        if not m: raise SystemExit('unparsable line in %s: %r' % (p, l))
-        out.append((m.group(1), m.group(2), int(m.group(3)), float(m.group(4)) if m.group(4) else None, m.group(5).split()))
-    return out
+    """stream the rows of a table (a thorough table has about two million lines)"""
+    with open(p) as f:
+        for l in f:
+            m = ROW.match(l.rstrip('\n'))
+            if not m: raise SystemExit('unparsable line in %s: %r' % (p, l))
+            yield (m.group(1), m.group(2), int(m.group(3)), float(m.group(4)) if m.group(4) else None, m.group(5).split())
 def val(t):
     if t[0] == 'f': return f32(int(t[1:], 16))
     if t[0] == 'd': return f64(int(t[1:], 16))
     return None
 def main():
+    import itertools
     P, S, build = parse(sys.argv[1]), parse(sys.argv[2]), sys.argv[3]
-    if len(P) != len(S): raise SystemExit('tables differ in length')
-    fails = collections.OrderedDict(); rows = collections.Counter(); lanes = 0
-    for (k, n, i, sc, v), (k2, n2, i2, sc2, v2) in zip(P, S):
+    fails = collections.OrderedDict(); rows = collections.Counter(); lanes = 0; nrows = 0
+    for a, b in itertools.zip_longest(P, S):
+        if a is None or b is None: raise SystemExit('tables differ in length')
+        (k, n, i, sc, v), (k2, n2, i2, sc2, v2) = a, b; nrows += 1
         if (k, n, i) != (k2, n2, i2) or len(v) != len(v2): raise SystemExit('tables out of step at %s %s %d' % (k, n, i))
         rows[k] += 1
         for j, (x, y) in enumerate(zip(v, v2)):
@@ -39,6 +41,6 @@ def main():
                 fails[key][0] += 1
     for (n, j), (cnt, i, x, y) in fails.items():
         print('FAIL fn=%s class="%s:%s:lane%d" input="row %d (count %d)" expected="%s" got="%s"' % (n, build, n, j, i, cnt, x, y))
-    print('TOTAL build=%s rows=%d exact_rows=%d approx_rows=%d lowp_rows=%d lanes=%d failing_lanes=%d' % (build, len(P), rows['E'], rows['A'], rows['L'], lanes, len(fails)))
+    print('TOTAL build=%s rows=%d exact_rows=%d approx_rows=%d lowp_rows=%d lanes=%d failing_lanes=%d' % (build, nrows, rows['E'], rows['A'], rows['L'], lanes, len(fails)))
     return 1 if fails else 0
 if __name__ == '__main__': sys.exit(main())
